@@ -61,4 +61,28 @@ PROPS = {
         "text": "A stateright model whose state is a twin pair of real Vec3A/Mat3A/Affine3A/BVec3A registers with identical visible lanes and different hidden lanes (10 contents x 2 injection routes, plus whatever glam itself leaves there); each of ~190 public operations is applied to both twins with twin operand menus; the always-property demands bit-identical observations and visible result lanes; results are explored up to depth 3 (quick) / 4 (thorough).",
         "note": TRUST + "; the operation alphabet is hand-listed (names are in the evidence under extra.op_names); scalar-math has no hidden lane and is not checked",
     },
+    "C06": {
+        "quick": ["sse2", "scalar"], "thorough": ["sse2", "scalar", "coresimd"],
+        "level": "exploration", "engine": "E1-sweep",
+        "technique": "exhaustive enumeration of accessor/constructor x index pair x tag round on the real code vs index arithmetic (bits); product laws on complete small-integer grids (exact)",
+        "design_ref": "DESIGN.md §3 C06",
+        "text": "For all 11 matrix/affine types every accessor and constructor (from_cols*, to/from_cols_array(_2d), slices, AsRef/AsMut, col/col_mut/row, axis fields, from_diagonal, transpose, all (i,j) of the minor constructors) is run on entries tagged with pairwise distinct bit patterns and compared with the column-major index map bit-for-bit; M*v = sum v[c]*col(c), (A*B)*v = A*(B*v) and the affine point/vector laws are checked exactly on dense integer matrices x all grid vectors; thorough adds all 2^32 f32 patterns through every entry of the SIMD-packed layouts.",
+        "note": TRUST + "; accessors are data movement, so distinct tags determine the permutation they implement",
+    },
+    "C03": {
+        "quick": ["sse2", "scalar"], "thorough": ["sse2", "scalar", "coresimd"],
+        "level": "exploration", "engine": "E1-sweep",
+        "technique": "exhaustive small-integer grids vs exact integer reference (finite polynomial-identity test) plus enumerated real-matrix families vs f64 with a-priori forward-error envelopes",
+        "design_ref": "DESIGN.md §3 C03",
+        "text": "Determinant, transpose, adjugate/inverse on every matrix of the integer grids (2x2 [-8,8]^4, 3x3 [-2,2]^9, 4x4 {0,1}^16 quick / {-1,0,1}^16 thorough) and products on complete pair grids are compared exactly with i128 arithmetic - the kernels are polynomials of degree <= 1 per entry (<= 2 for mutants picking a wrong column), so agreement on these grids is an identity; real families (signed permutations, Q*D*Q^T with prescribed condition number up to 1e4/1e10, Hilbert, Vandermonde, three scalings) are compared with f64 references within K*eps*sum|terms| and inverse within the adj/det envelope and both residuals.",
+        "note": TRUST + "; real inputs off the enumerated families are not covered; tolerance constants K = 2 x rounding depth are in the source with the observed/bound ratios reported in the evidence",
+    },
+    "C04": {
+        "quick": ["sse2", "scalar"], "thorough": ["sse2", "scalar", "coresimd"],
+        "level": "exploration", "engine": "E1-sweep",
+        "technique": "exhaustive integer-quaternion grids vs exact Hamilton product / sandwich polynomial; enumerated unit-rotation family pairs vs f64 within K*eps envelopes",
+        "design_ref": "DESIGN.md §3 C04",
+        "text": "All 625^2 pairs of integer quaternions {-2..2}^4 for the Hamilton product (operator, method, assign, Product), conjugate, +, -, scalar ops, dot, length_squared, ==, and all (q, v) in {-2..2}^4 x {-1,0,1}^3 for q*v (Vec3 and Vec3A) are compared exactly with integer arithmetic (bilinear / polynomial identity); all pairs of a ROT sub-family x direction vectors check q*v against the f64 polynomial and rotation matrix, length preservation, associativity, inverse, -q within K*eps*|q|^2*|v|.",
+        "note": TRUST + "; real inputs off the enumerated families are not covered",
+    },
 }
